@@ -6,6 +6,7 @@
 // thread k) / res <tid> <try results> / grant <tids in the order in which they obtained the lock> /
 // mon <verdict> / sched <tids> / end
 #include <oneapi/tbb/queuing_mutex.h>
+#include "hb.h"
 #include <cstdio>
 #include <cstring>
 #include <map>
@@ -36,13 +37,13 @@ static bool run_once(verif::Schedule& sch, int run_idx, bool print) {
     std::vector<std::function<void()>> bodies;
     for (size_t t = 0; t < T; ++t) bodies.push_back([&, t] {
         bool held = false;
-        auto acquired = [&] { if (holders) gerr = "second thread entered the critical section"; holders++; held = true; grant.push_back((int)t); };
+        auto acquired = [&] { if (holders) gerr = "second thread entered the critical section"; holders++; held = true; grant.push_back((int)t); cs_w(); };
         for (auto& op : g_progs[t]) {
             if (op == "acquire" && !held) { eff[t].push_back(op); lk[t].acquire(m); acquired(); }
             else if (op == "try_acquire" && !held) { eff[t].push_back(op); bool b = lk[t].try_acquire(m); res[t].push_back(b); if (b) acquired(); }
-            else if (op == "release" && held) { eff[t].push_back(op); holders--; held = false; lk[t].release(); }
+            else if (op == "release" && held) { eff[t].push_back(op); cs_w(); holders--; held = false; lk[t].release(); }
         }
-        if (held) { eff[t].push_back("release"); holders--; lk[t].release(); }
+        if (held) { eff[t].push_back("release"); cs_w(); holders--; lk[t].release(); }
     });
     verif::Result r = verif::run(bodies, sch);
     // FIFO monitor, read from the trace: threads enter the queue at their successful q_tail exchange / CAS(null -> node);
@@ -57,6 +58,7 @@ static bool run_once(verif::Schedule& sch, int run_idx, bool print) {
             if (i >= enq.size() || enq[i] != grant[i]) { gerr = "lock granted out of queue order (grant #" + std::to_string(i) + " went to thread " + std::to_string(grant[i]) + ")"; break; }
         if (gerr.empty() && grant.size() != enq.size()) gerr = "a queued request was never granted";
     }
+    if (gerr.empty()) gerr = cs_hb(r, bodies.size());
     bool ok = gerr.empty() && !r.deadlock;
     if (print || !ok) {
         printf("run %d\n", run_idx);
